@@ -21,6 +21,7 @@ CONSTANTS L,          \* successor list length (chord.ExtendedSuccessorEntries =
           FixPred,    \* TRUE: RequestToJoin refuses (retryably) while the predecessor is nil or not pingable
           FixLeave,   \* TRUE: RequestToLeave refuses (retryably) unless the leaver is the node's predecessor
           FixWrap,    \* TRUE: stabilize cuts the new successor list after the node itself (entries past a full circle are dropped)
+          FixDead,    \* TRUE: stabilize falls back to the nearest live finger / predecessor (or the node itself) when every node of its list has departed
           MaxTry,     \* bound on join / leave attempts in the model (code: 10)
           TrackCov    \* TRUE: record in s.cov which branch of which action was taken (coverage goals; witnesses are replayed on the real code)
 
@@ -77,8 +78,15 @@ StabList(s, n, list) ==
 
 RECURSIVE CutAtSelf(_, _)
 CutAtSelf(list, n) == IF list = <<>> THEN <<>> ELSE IF Head(list) = n THEN <<n>> ELSE <<Head(list)>> \o CutAtSelf(Tail(list), n)
+(* the nodes a node still knows of besides its successor list: finger table (modelled in ChordRing as fing, observed in recorded
+   runs as fset, absent in the plain membership model) and predecessor *)
+FingerSet(s, n) == IF "fing" \in DOMAIN s THEN {s.fing[n][k] : k \in DOMAIN s.fing[n]} ELSE s.fset[n]
+NearestLive(s, n) ==      \* nearestLiveNode(): first pingable node clockwise after n among fingers and predecessor, else n
+  LET cands == {c \in (FingerSet(s, n) \cup {s.pred[n]}) \ {Nil, n} : Pingable(s, c)} IN
+  IF cands = {} THEN n ELSE CHOOSE c \in cands : \A d \in cands \ {c} : ~NB(s.lay, n, d, c, FALSE)
 StabilizeF(s, n) ==
-  LET raw == StabList(s, n, s.succ[n])
+  LET raw0 == StabList(s, n, s.succ[n])
+      raw == IF raw0 = <<>> /\ FixDead /\ \A i \in 1..Len(s.succ[n]) : ~Live(s, s.succ[n][i]) THEN <<NearestLive(s, n)>> ELSE raw0
       nl == IF FixWrap THEN CutAtSelf(raw, n) ELSE raw IN
   IF nl = <<>> THEN s
   ELSE LET s1 == [s EXCEPT !.succ[n] = nl]
@@ -323,6 +331,7 @@ InitState(lay, members) ==
    pred |-> [n \in N |-> IF n \in members THEN PrevMember(lay, members, n) ELSE Nil],
    succ |-> [n \in N |-> IF n \in members THEN MkList(NextK(lay, members, n, 1)[1], Tail(NextK(lay, members, n, L))) ELSE <<>>],
    sur |-> [n \in N |-> Nil],
+   fset |-> [n \in N |-> {}],       \* recorded runs: the nodes named by the finger table (re-synchronised from the log, never computed)
    store |-> [n \in N |-> [k \in KeysOf(lay) |-> EmptyVal]],
    cur |-> [k \in KeysOf(lay) |-> EmptyVal],
    jpc |-> [n \in N |-> "idle"], jx |-> [n \in N |-> Nil], jp |-> [n \in N |-> Nil], jsl |-> [n \in N |-> <<>>],
